@@ -7,7 +7,8 @@ M=$(readlink -f "$1"); shift
 export GOFLAGS=-mod=mod GOPROXY=off GOSUMDB=off GOTOOLCHAIN=local
 cd /repo || exit 2
 [ -z "$(git status --porcelain)" ] || { echo "REPO-DIRTY"; exit 2; }
-restore() { cd /repo; git checkout -q -- . ; git clean -fdq pkg >/dev/null 2>&1; }
+EB=$(mktemp -d /var/tmp/evalmut.evid.XXXXXX); cp -a /verif/evidence/. "$EB"/   # checks run here see a changed tree: their evidence must not replace the committed one
+restore() { cd /repo; git checkout -q -- . ; git clean -fdq pkg >/dev/null 2>&1; rm -rf /verif/evidence; mkdir -p /verif/evidence; cp -a "$EB"/. /verif/evidence/; rm -rf "$EB"; }
 trap restore EXIT
 prop=$(jq -r .property "$M/meta.json")
 loc=$(jq -r '.demo_location // empty' "$M/meta.json")
